@@ -174,6 +174,16 @@ class ActionDefinition:
             logger.debug("🔧 Parsing action definition from dict: %s", config)
             self.type: str = config.get("type", "UnknownAction")
             self.params: Optional[Dict[str, Any]] = config.get("params")
+            # 🛡️ The action name is looked up and prefix-tested as a string;
+            #    any other JSON type surfaced as a raw `AttributeError` from
+            #    inside `start()` / `send()` when the action was executed.
+            if self.type is None or isinstance(
+                self.type, (bool, int, float, list, dict)
+            ):
+                raise InvalidConfigError(
+                    "Action 'type' must be a string, got "
+                    f"{type(self.type).__name__}"
+                )
         else:
             # ❌ Reject invalid definitions
             logger.error(
@@ -269,6 +279,12 @@ class GuardDefinition:
             # 🌳 Composite guards accept their operands under `children`, or
             #    (as XState's helpers emit) inside `params`.
             children_cfg = config.get("children") or []
+            if not isinstance(children_cfg, (list, tuple)):
+                raise InvalidConfigError(
+                    f"❌ Guard '{guard_type}' has 'children' of type "
+                    f"{type(children_cfg).__name__}; expected a list of "
+                    "guards."
+                )
             if not children_cfg and isinstance(self.params, dict):
                 children_cfg = (
                     self.params.get("guards")
@@ -810,9 +826,16 @@ class StateNode(Generic[TContext, TEvent]):
             return initial
 
         # 🕰️ History pseudo-states are never a valid initial target.
+        raw_states = config.get("states", {})
+        if not isinstance(raw_states, dict):
+            raise InvalidConfigError(
+                f"State '{self.id}' has an invalid 'states' value of type "
+                f"'{type(raw_states).__name__}'. Expected an object/dict "
+                f"mapping state names to definitions."
+            )
         candidates = [
             key
-            for key, child in config.get("states", {}).items()
+            for key, child in raw_states.items()
             if not (isinstance(child, dict) and child.get("type") == "history")
         ]
 
@@ -1172,7 +1195,13 @@ class MachineNode(StateNode[TContext, TEvent]):
         self.initial_context = raw_context
         #: Upper bound on microsteps when settling transient ("always")
         #: transitions, mirroring XState's `maxIterations` (v5.31.0).
-        self.max_iterations: int = int(config.get("maxIterations", 1000))
+        try:
+            self.max_iterations: int = int(config.get("maxIterations", 1000))
+        except (TypeError, ValueError):
+            raise InvalidConfigError(
+                f"Machine '{config['id']}' has an invalid 'maxIterations' "
+                f"({config.get('maxIterations')!r}); expected an integer."
+            ) from None
         #: Machine-level output declaration, resolved when a top-level final
         #: state is reached.
         self.machine_output: Any = config.get("output")
